@@ -41,18 +41,26 @@ if '--no-confirm' not in sys.argv:
     finally:
         sh('git -C /repo worktree remove --force %s' % wt)
         sh('rm -rf %s' % wt)
-# run the check against /repo with the patch applied
-assert sh('git -C /repo status --porcelain --untracked-files=no')[1].strip() == '', '/repo not clean'
-rc, out = sh('git -C /repo apply %s' % os.path.join(src, 'patch.diff'))
+# run the check against a scratch copy of /repo's working tree with the patch applied
+# (equivalent to `git -C /repo apply` + check + `git -C /repo checkout -- .`, but does not disturb
+# other work going on in /repo)
+scr = '/tmp/seedrepo-' + name
+sh('rm -rf %s' % scr)
+rc, out = sh('rsync -a --exclude target --exclude .git /repo/ %s/' % scr)
+assert rc == 0, out
+rc, out = sh('git apply --unsafe-paths --directory=%s %s' % (scr, os.path.join(src, 'patch.diff')), cwd='/')
+if rc != 0:
+    rc, out = sh('patch -p1 -d %s < %s' % (scr, os.path.join(src, 'patch.diff')))
 assert rc == 0, out
 try:
     t0 = time.time()
+    env['VERIF_REPO'] = scr
     rcq, outq = sh('./check %s --tier quick' % pid, VERIF, timeout=7200)
-    meta['check'] = dict(cmd='./check %s --tier quick' % pid, rc=rcq, wall_s=round(time.time() - t0, 1),
+    meta['check'] = dict(cmd='git -C /repo apply patch.diff && ./check %s --tier quick' % pid, rc=rcq, wall_s=round(time.time() - t0, 1),
                          lines=[l for l in outq.split('\n') if l.startswith(('VIOLATION', 'UNDECIDED', 'KNOWN', pid))])
     meta['detected'] = rcq == 1 and 'VIOLATION property=%s' % pid in outq
 finally:
-    sh('git -C /repo checkout -- .')
+    sh('rm -rf %s' % scr)
 os.makedirs(dst, exist_ok=True)
 for f in ('patch.diff', 'demo.rs', 'notes.txt'):
     if os.path.exists(os.path.join(src, f)) and os.path.abspath(src) != os.path.abspath(dst):
